@@ -264,12 +264,18 @@ structure Flags where
     DECOMPOSE_TRANSFORMED_COMPONENTS = 1<<4, DECOMPOSE_COMPONENTS = 1<<8. -/
 def Flags.ofBits (n : Nat) : Flags := ⟨n.testBit 2, n.testBit 3, n.testBit 4, n.testBit 8⟩
 
+/-- The executable state keeps the glyphs as an association list (latest binding first); `State.env` is the
+    environment it denotes (`Env.ofList ((n, i) :: l) = (Env.ofList l).set n i`). -/
+abbrev Glyphs := List (String × Inst)
+
 structure State where
   /-- every glyph name in the context -/
   names : List String
-  env : Env
+  glyphs : Glyphs
   /-- new_glyph_order: the exported glyphs, then glyphs added by splitting -/
   order : List String
+
+def State.env (st : State) : Env := Env.ofList st.glyphs
 
 def Inst.mixed (i : Inst) : Bool := !i.comps.isEmpty && !i.contours.isEmpty
 
@@ -288,11 +294,12 @@ def depthOrder (G : Env) (names : List String) : List String :=
   (keyed.mergeSort fun x y => x.1 < y.1 || (x.1 == y.1 && strLe x.2 y.2)).map (·.2)
 
 /-- flatten_all_non_export_components (glyph.rs:267). -/
-def inlineAll (exported : String → Bool) (names : List String) (G : Env) : Env :=
-  (depthOrder G names).foldl (fun G n =>
+def inlineAll (exported : String → Bool) (names : List String) (gl : Glyphs) : Glyphs :=
+  (depthOrder (Env.ofList gl) names).foldl (fun gl n =>
+    let G := Env.ofList gl
     match G n with
-    | none => G
-    | some i => if i.comps.any (fun c => !exported c.base) then G.set n (inlineInst G exported i) else G) G
+    | none => gl
+    | some i => if i.comps.any (fun c => !exported c.base) then (n, inlineInst G exported i) :: gl else gl) gl
 
 /-- name_for_derivative (glyph.rs:37). -/
 def derivativeName (base : String) (order : List String) : Nat → Nat → String
@@ -311,11 +318,11 @@ def reachable (G : Env) : Nat → List String → List String
 
 def applyFix (fuel : Nat) (st : State) (op : GlyphOp) (n : String) (orig : Inst) : State :=
   match op with
-  | .toContour => { st with env := st.env.set n (decomposeInst st.env fuel orig) }
+  | .toContour => { st with glyphs := (n, decomposeInst st.env fuel orig) :: st.glyphs }
   | .moveContours =>
     let nn := derivativeName n st.order (st.order.length + 1) 0
     let (simple, composite) := splitInst orig nn
-    { st with env := (st.env.set nn simple).set n composite, order := st.order ++ [nn], names := st.names ++ [nn] }
+    { st with glyphs := (n, composite) :: (nn, simple) :: st.glyphs, order := st.order ++ [nn], names := st.names ++ [nn] }
 
 /-- resolve_inconsistencies (glyph.rs:172): a fix is applied only when no glyph reachable from it is still pending;
     otherwise it goes to the back of the queue. -/
@@ -335,7 +342,7 @@ def applyOptional (fl : Flags) (fuel : Nat) (st : State) : State :=
     | none => st
     | some i => match f st.env i with
       | none => st
-      | some i' => { st with env := st.env.set n i' }
+      | some i' => { st with glyphs := (n, i') :: st.glyphs }
   if fl.decomposeAll then
     st.order.foldl (fun st n => upd st n fun G i => if i.comps.isEmpty then none else some (decomposeInst G fuel i)) st
   else
@@ -349,16 +356,18 @@ def applyOptional (fl : Flags) (fuel : Nat) (st : State) : State :=
 
 /-- GlyphOrderWork::exec (glyph.rs:822-944) at one location. `inconsistent n`: the glyph's component 2×2s vary
     over the designspace (`has_consistent_components`, not visible at a single location). -/
-def process (fl : Flags) (exported : String → Bool) (inconsistent : String → Bool) (names : List String) (G : Env) : State :=
+def process (fl : Flags) (exported : String → Bool) (inconsistent : String → Bool) (names : List String) (gl : Glyphs) : State :=
   let fuel := names.length + 2
   -- flatten_all_non_export_components
-  let G1 := inlineAll exported names G
+  let gl1 := inlineAll exported names gl
+  let G1 := Env.ofList gl1
   let order := names.filter exported
   -- glyph.rs:866: components that are not retained force decomposition
-  let G2 := order.foldl (fun G n =>
+  let gl2 := order.foldl (fun gl n =>
+    let G := Env.ofList gl
     match G n with
-    | none => G
-    | some i => if i.comps.any (fun c => !order.contains c.base) then G.set n (decomposeInst G fuel i) else G) G1
+    | none => gl
+    | some i => if i.comps.any (fun c => !order.contains c.base) then (n, decomposeInst G fuel i) :: gl else gl) gl1
   -- glyph.rs:882: the todo list is computed on the glyphs as they were after inlining (`original_glyphs`)
   let todo : List (GlyphOp × String × Inst) := order.filterMap fun n =>
     match G1 n with
@@ -368,7 +377,7 @@ def process (fl : Flags) (exported : String → Bool) (inconsistent : String →
       else if i.comps.any (·.t.overflows) then some (.toContour, n, i)
       else if i.mixed then some (if fl.preferSimple then .toContour else .moveContours, n, i)
       else none
-  let st := resolveInconsistencies fuel ((todo.length + 1) * (todo.length + 1)) ⟨names, G2, order⟩ todo
+  let st := resolveInconsistencies fuel ((todo.length + 1) * (todo.length + 1)) ⟨names, gl2, order⟩ todo
   applyOptional fl fuel st
 
 end Fontc.Components
